@@ -754,7 +754,85 @@ def rule_contract_nested(ctx) -> None:
     ctx.floor("C14.CONTRACT", "numeric uses of nested configuration values in the engine", n_uses, 4)
 
 
+def _validator_minimum(ctx, leaf: str) -> Tuple[Optional[int], int]:
+    """smallest value of `<...>.<leaf>` the validator accepts, read from its `if x[leaf] < N: _err(...)` tests: (min over sites, #sites)"""
+    impl = ctx.func(IMPL)
+    mins = []
+    for x in walk_no_defs(impl.node):
+        if not isinstance(x, ast.If):
+            continue
+        errs = any(isinstance(c, ast.Call) and call_tail(c) == "_err" for st in x.body for c in ast.walk(st))
+        if not errs:
+            continue
+        for c in ast.walk(x.test):
+            if isinstance(c, ast.Compare) and len(c.ops) == 1 and isinstance(c.comparators[0], ast.Constant) and isinstance(c.comparators[0].value, int):
+                l = c.left
+                named = (isinstance(l, ast.Subscript) and const_str(l.slice) == leaf)
+                if not named and isinstance(l, ast.Name):
+                    # me = _coerce_int(raw.get("max_entries")); if me < 0
+                    named = any(isinstance(a, ast.Assign) and any(isinstance(t, ast.Name) and t.id == l.id for t in a.targets) and any(const_str(z) == leaf for z in ast.walk(a.value))
+                                for a in walk_no_defs(impl.node) if isinstance(a, ast.Assign))
+                if not named:
+                    continue
+                n = c.comparators[0].value
+                if isinstance(c.ops[0], ast.Lt):
+                    mins.append(n)
+                elif isinstance(c.ops[0], ast.LtE):
+                    mins.append(n + 1)
+    return (min(mins) if mins else None), len(mins)
+
+
+def rule_capacity_floor(ctx) -> None:
+    """the validator accepts cache capacities down to a minimum (0 = 'keep nothing'); the containers that receive them must run
+    with that minimum.  An eviction loop that pops while `len(c) >= cap` assumes cap >= 1: with the accepted capacity 0 it pops
+    from the empty container and the KeyError / IndexError leaves the turn."""
+    from .. import hazards
+    from .c15 import eviction_loops
+    vmin, n_sites = _validator_minimum(ctx, "max_entries")
+    ctx.floor("C14.CONTRACT", "validator lower-bound tests of cache max_entries", n_sites, 3)
+    loops = eviction_loops(ctx)
+    ctx.floor("C14.CONTRACT", "eviction loops of the containers sized by the configuration", len(loops), 5)
+    for cq, fn, lp, caps, cont in loops:
+        ctx.analysed_funcs.add(fn.qual)
+        lb = hazards.init_lower_bounds(ctx, cq)
+        nn = {k for k, v in lb.items() if v >= 0}
+        ps = {k for k, v in lb.items() if v >= 1}
+        if vmin is not None and vmin >= 0:
+            nn |= {f"self.{c}" for c in caps}
+        if vmin is not None and vmin >= 1:
+            ps |= {f"self.{c}" for c in caps}
+        for call, popped in hazards.pops_in_loop(lp):
+            # containers whose length the loop condition constrains; the order queue holds at least the keys of the map
+            lens = sorted({src(x.args[0]) for x in ast.walk(lp.test) if isinstance(x, ast.Call) and dotted(x.func) == "len" and x.args and src(x.args[0]).startswith("self.")})
+            cands = [popped] + [c for c in lens if c != popped]
+            alts = lp.test.values if isinstance(lp.test, ast.BoolOp) and isinstance(lp.test.op, ast.Or) else [lp.test]
+
+            def budget_alt(a: ast.AST) -> bool:
+                """`cap and total > cap` on a running byte total: total > cap >= 1 means something is stored, given the byte
+                accounting (total = sum of stored costs, C15.ACCT)"""
+                vs = a.values if isinstance(a, ast.BoolOp) and isinstance(a.op, ast.And) else [a]
+                truthy = {src(v) for v in vs if src(v) in nn}
+                return any(isinstance(v, ast.Compare) and len(v.ops) == 1 and isinstance(v.ops[0], ast.Gt) and src(v.comparators[0]) in truthy | ps
+                           and not (isinstance(v.left, ast.Call) and dotted(v.left.func) == "len") for v in vs)
+
+            per_alt = [next((c for c in cands if hazards.nonempty_implied(a, c, nn, ps)), "<bytes>" if budget_alt(a) else None) for a in alts]
+            ok = None if any(x is None for x in per_alt) else (popped if all(x == popped for x in per_alt) else next(x for x in per_alt if x != popped))
+            key = ctx.okey(f"{fn.qual}/pop-implies-nonempty")
+            if ok == popped:
+                ctx.holds("C14.CONTRACT", key, fn.loc(call), f"`{src(lp.test)[:50]}` implies {popped} is non-empty for every accepted capacity (>= {vmin})")
+            elif ok == "<bytes>" or (ok is not None and "<bytes>" in per_alt):
+                ctx.holds("C14.CONTRACT", key, fn.loc(call), f"every alternative of `{src(lp.test)[:50]}` implies a stored entry for every accepted capacity (>= {vmin}): an entry count above a "
+                          f"non-negative cap, or a byte total above a positive cap (byte accounting: C15.ACCT); {popped} lists at least the stored keys")
+            elif ok is not None:
+                ctx.holds("C14.CONTRACT", key, fn.loc(call), f"`{src(lp.test)[:50]}` implies {ok} is non-empty for every accepted capacity (>= {vmin}); {popped} lists at least its keys (pairing checked by C15.ACCT / C15.EVICT)")
+            else:
+                ctx.violation("C14.CONTRACT", key, fn.loc(call),
+                              f"`{src(call)}` runs while `{src(lp.test)[:50]}`, which does not imply that {popped} is non-empty when the capacity is {vmin} - a value the validator accepts "
+                              f"(max_entries must be >= {vmin}): the first insert pops from the empty container and the exception leaves the turn")
+
+
 def run(ctx) -> None:
+    rule_capacity_floor(ctx)
     rule_pure(ctx)
     rule_api(ctx)
     rule_det(ctx)
